@@ -6,8 +6,10 @@ package main
 import (
 	"fmt"
 	"math/big"
+	"reflect"
 	"sync"
 	"time"
+	"unsafe"
 
 	"github.com/massnetorg/mass-core/blockchain"
 	"github.com/massnetorg/mass-core/config"
@@ -273,6 +275,35 @@ func runScenario(sc *scenario) (res *scenResult) {
 		}
 		d.waitSub(0, 0, st0.exp.TS.Add(3*time.Second))
 		st0.gaveUpAt = time.Now()
+	case "stop-in-walk":
+		if !st0.exp.Exists {
+			st0.drop = "harness:no-eligible-slot-in-event-scenario"
+			break
+		}
+		closedAt := make(chan time.Time, 1)
+		sc.rounds[0].firstTarget.Store(func() {
+			// inside the miner's walk over the past slots: Stop() is called, and the walk continues only when the
+			// miner's quit channel is seen closed - from then on nothing may be submitted
+			go d.stop()
+			for t0 := time.Now(); time.Since(t0) < 5*time.Second; time.Sleep(200 * time.Microsecond) {
+				if closed, ok := quitClosed(d.mi); !ok || closed {
+					if ok {
+						closedAt <- time.Now()
+					}
+					return
+				}
+			}
+		})
+		select {
+		case at := <-closedAt:
+			stopped = true
+			st0.forbid, st0.forbidFrom = "stop-during-slot-walk", at
+			d.ev("Stop() took effect inside the first GetTarget call of the slot walk")
+			time.Sleep(2500 * time.Millisecond)
+			st0.gaveUpAt = time.Now()
+		case <-time.After(8 * time.Second):
+			st0.drop = "harness:stop-in-walk-hook-not-reached"
+		}
 	case "stop-after":
 		if !st0.exp.Exists {
 			st0.drop = "harness:no-eligible-slot-in-event-scenario"
@@ -394,4 +425,22 @@ func sum(xs []int) int64 {
 		t += int64(x)
 	}
 	return t
+}
+
+// quitClosed reads (never writes) the miner's unexported quit channel: closed = Stop() has taken effect.
+func quitClosed(mi interface{}) (closed, ok bool) {
+	v := reflect.ValueOf(mi)
+	if v.Kind() != reflect.Ptr || v.Elem().Kind() != reflect.Struct {
+		return false, false
+	}
+	f := v.Elem().FieldByName("quit")
+	if !f.IsValid() || f.Kind() != reflect.Chan || !f.CanAddr() {
+		return false, false
+	}
+	ch := reflect.NewAt(f.Type(), unsafe.Pointer(f.UnsafeAddr())).Elem()
+	if ch.IsNil() {
+		return false, true
+	}
+	x, recvOK := ch.TryRecv()
+	return x.IsValid() && !recvOK, true
 }
